@@ -581,6 +581,11 @@ func runScopeType(c *Ctx, r *Reporter) {
 				n++
 				construct := fmt.Sprintf("%s#scope.set[%d]", fd.QName(), n)
 				v := call.Call.Args[2]
+				var at ssa.Instruction = call // the point every path to the call has passed
+				if pv, via := guardedPhiValue(v, call); pv != nil && len(via.Instrs) > 0 {
+					v = pv // `if loopVar != nil { scope.set(…, loopVar) }`: the variable built on the other path
+					at = via.Instrs[len(via.Instrs)-1]
+				}
 				why := ""
 				okv := false
 				if a, ok := resolveLocalFieldLoad(v).(*ssa.Alloc); ok {
@@ -588,7 +593,7 @@ func runScopeType(c *Ctx, r *Reporter) {
 						if k, isConst := st.Val.(*ssa.Const); isConst && k.IsNil() {
 							continue
 						}
-						if instrDominates(st, call) {
+						if instrDominates(st, at) {
 							okv = true
 							why = "fresh variable with its type set before it enters the scope"
 						}
@@ -966,6 +971,27 @@ func nonNilGuarded(use ssa.Instruction, v ssa.Value) bool {
 		}
 	}
 	return false
+}
+
+// guardedPhiValue: v is a phi of nil and exactly one other value, and `use` lies on the non-nil edge of a test of v:
+// on every path to use, v is that other value and control came through the predecessor block that contributed it.
+func guardedPhiValue(v ssa.Value, use ssa.Instruction) (ssa.Value, *ssa.BasicBlock) {
+	phi, ok := v.(*ssa.Phi)
+	if !ok || !nonNilGuarded(use, v) {
+		return nil, nil
+	}
+	var val ssa.Value
+	var via *ssa.BasicBlock
+	for i, e := range phi.Edges {
+		if k, ok := e.(*ssa.Const); ok && k.IsNil() {
+			continue
+		}
+		if val != nil {
+			return nil, nil
+		}
+		val, via = e, phi.Block().Preds[i]
+	}
+	return val, via
 }
 
 // sameFieldLoad: two loads of the same field of the same local object.
